@@ -87,6 +87,7 @@ impl<T> Polynomial<T> {
     where
         T: Zero + PartialEq,
     {
+        if self.coeffs.is_empty() { return; } // nothing to trim ( len() - 1 underflowed )
         let mut i = self.coeffs.len() - 1;
         while self.coeffs[ i ] == T::zero() && i > 0 {
             self.coeffs.pop();
@@ -108,7 +109,8 @@ impl<T: Clone + Copy + Zero + Mul<Output = T> + Add<Output = T>> Polynomial<T> {
     #[inline]
     pub fn derivative(&self) -> Polynomial<T> {
         let mut p = Polynomial::<T>::empty();
-        let degree = self.degree().unwrap(); //TODO unwrap
+        // the empty polynomial is the zero polynomial: its derivative is empty again
+        let degree = match self.degree() { Ok( degree ) => degree, Err( _ ) => return p };
         p.coeffs = vec![ T::zero(); degree ];
         for i in 0..degree {
             //p.coeffs[ i ] = self.coeffs[ i + 1 ].clone() * ( i + 1 ) as f64;
@@ -133,6 +135,8 @@ impl<T: Clone + Copy + Zero + Mul<Output = T> + Add<Output = T>> Polynomial<T> {
     #[inline]
     pub fn derivative_at(&self, x: T, n: usize) -> T {
         let p = self.derivative_n( n );
+        // beyond the degree every derivative is the (empty) zero polynomial, whose value is zero
+        if p.size() == 0 { return T::zero(); }
         p.eval( x )
     }
 }
